@@ -420,7 +420,11 @@ def module_dict_expr(ix: Index, mod, name: str):
                 rets[0].value.id != inner[0].name or len(inner[0].args.args) != 1:
             continue
         kparam, fparam = fn.args.args[0].arg, inner[0].args.args[0].arg
-        body = [s for s in inner[0].body if not (isinstance(s, ast.Expr) and isinstance(s.value, ast.Constant))]
+        # (docstrings, assertions and log calls in the registering function do not change what is registered)
+        body = [s for s in inner[0].body if not (
+            (isinstance(s, ast.Expr) and isinstance(s.value, ast.Constant)) or isinstance(s, ast.Assert) or
+            (isinstance(s, ast.Expr) and isinstance(s.value, ast.Call) and isinstance(s.value.func, ast.Attribute)
+             and isinstance(s.value.func.value, ast.Name) and s.value.func.value.id in ("logger", "logging")))]
         if len(body) == 2 and isinstance(body[0], ast.Assign) and len(body[0].targets) == 1 and \
                 isinstance(body[0].targets[0], ast.Subscript) and isinstance(body[0].targets[0].value, ast.Name) and \
                 body[0].targets[0].value.id == name and isinstance(body[0].targets[0].slice, ast.Name) and \
@@ -495,3 +499,29 @@ def dispatch_table_name(ix: Index) -> str:
                 and n.slice.id == first and n.value.id in ws.module.assigns:
             return n.value.id
     raise AnalysisError("write_struct: the dispatch table it consults was not found")
+
+
+def enum_converter(ix, te):
+    """The function that converts a value for an enum-valued attribute, by role: the closure ValidatorEnum.make_converter
+    returns, or - when make_converter returns `partial(cls.method, label, allow_none, soft)` - that method.
+    -> (FuncInfo, term of the value parameter, term naming the enum class inside it)"""
+    from . import AnalysisError
+    mk = ix.get_class("ValidatorEnum").lookup("make_converter")
+    if mk is None:
+        raise AnalysisError("ValidatorEnum.make_converter not found")
+    nested = [f for f in ix.functions.values() if f.parent is mk and isinstance(f.node, ast.FunctionDef)]
+    if len(nested) == 1:
+        return nested[0], ("param", nested[0].param_names[0]), ("free", "cls")
+    su = te.summary(mk)
+    for _, t, _n in su.returns:
+        if t[0] == "call" and t[1][0] == "global" and t[1][1].split(".")[-1] == "partial" and t[2] and \
+                t[2][0][0] == "attr" and t[2][0][1] in (("param", "cls"), ("param", "self")):
+            m = mk.cls.lookup(t[2][0][2])
+            if m is not None and m.param_names:
+                bound = len(t[2]) - 1 + len(t[3])
+                params = m.param_names[1:] if m.kind != "staticmethod" else m.param_names
+                rest = [p for p in params[bound - len(t[3]):] if p not in {k for k, _ in t[3]}]
+                if len(rest) == 1:
+                    return m, ("param", rest[0]), ("param", m.param_names[0])
+    raise AnalysisError("ValidatorEnum.make_converter: the converter it returns (closure or partial of a method) was "
+                        "not found")
